@@ -30,6 +30,15 @@ HAND = [
     ("#[::entrait::entrait(mockall, ?Send)]", "pub trait NoSendT { async fn m(&self, a: u8) -> u8; async fn unit(&self); }"),
     ("#[::entrait::entrait(pub T, export = false, mockall, debug = false)]", "fn explicit<D>(deps: &D, a: u8) -> u8 { a }"),
     ("#[::entrait::entrait(dyn)]", "impl RImpl for X { fn m<D: Sync>(d: &D, _: u8) -> u8 { 0 } }"),
+    # invocations that refer to each other's generated traits by name, the same invocation before AND after the one it names:
+    # what an invocation generates must not depend on what an earlier one (with other options) generated for that name
+    ("#[::entrait::entrait(pub Report)]", "async fn report(deps: &impl Ui, a: u8) -> u8 { a }"),
+    ("#[::entrait::entrait(pub Report2, mockall)]", "mod report2 {\n    pub async fn r2<D: Ui + Sync>(deps: &D) {}\n    pub fn r3<D>(deps: &D) where D: Ui {}\n}"),
+    ("#[::entrait::entrait(pub Ui, ?Send)]", "async fn ui<D>(deps: &D, a: u8) -> u8 { a }"),
+    ("#[::entrait::entrait(pub Report)]", "async fn report(deps: &impl Ui, a: u8) -> u8 { a }"),
+    ("#[::entrait::entrait(pub Report2, mockall)]", "mod report2 {\n    pub async fn r2<D: Ui + Sync>(deps: &D) {}\n    pub fn r3<D>(deps: &D) where D: Ui {}\n}"),
+    ("#[::entrait::entrait(pub Ui, export, mock_api = UiMock, unimock)]", "fn ui<D>(deps: &D, a: u8) -> u8 { a }"),
+    ("#[::entrait::entrait(pub Report)]", "async fn report(deps: &impl Ui, a: u8) -> u8 { a }"),
 ]
 
 
